@@ -112,3 +112,13 @@ Fixpoint unord_rep (inuse : N -> bool) (fails : nat -> bool) (i : nat) (us : lis
   end.
 
 Definition unord_loop_v (v : variant) := match v with Current => unord_loop | Repaired => unord_rep end.
+
+(* writeCompactedFileInfo after props/C03/fix6.patch: an intent log that could not be written or synced completely is removed
+   again before the error is returned (today the file stays: dirty after a failed write, COMPLETE after a failed sync - and a
+   complete log left in a store that lives on is rolled forward by a later start-up against files that have changed since).
+   cleanup = true: ordinals S i0 (write) and S (S i0) (sync) failing leave no log at all. *)
+Definition replace_exec_c (cleanup : bool) (v : variant) (inuse : N -> bool) (fails : nat -> bool) (i0 : nat)
+           (old new : list N) (st : fs) (live : list N) : rstate :=
+  if cleanup && negb (fails i0) && (fails (S i0) || fails (S (S i0)))
+  then mkr (run_step LogRemove (run_step LogCreate st)) live true (S (S (S i0)))
+  else replace_exec v inuse fails i0 old new st live.
